@@ -36,8 +36,11 @@ ASSUMPTIONS = [
     "catalogue index programs (harness/catalog.py names containing '['): the index, and chains of two indices, applied to "
     "sources/transposes/elemwise/concatenate/stack/arange through Array.__getitem__ and the optimizer, concrete integer "
     "lists included, are decided end to end",
-    "boolean masks, dask-array indices, .blocks, unknown chunk sizes: NOT decided (their planners are NumPy-array code on "
-    "data-dependent indices); .vindex: bounds and point placement for the instances listed",
+    ".blocks[...] on catalogue programs; integer dask-array indices: the two block kernels on index chunks of 1-3 unbounded "
+    "symbolic entries over 2-3 blocks of symbolic size (values, and IndexError outside [-n, n)), and -- combined with other "
+    "indices -- optimizer survival and advertised shape only",
+    "boolean masks, unknown chunk sizes, dask index arrays of several chunks end to end: NOT decided; .vindex: bounds and "
+    "point placement for the instances listed",
 ]
 
 
